@@ -138,17 +138,24 @@ def outcome (i n l : Nat) : Except Int Int := if l < n then .error ((i + l : Nat
 
 theorem outcome_zero (i : Nat) : outcome i 0 0 = .ok (i : Int) := by simp [outcome]
 
+/-- what such a loop leaves in `idx`, whichever way it is left (`break`/fall-through = `.ok`, `return idx` = `.error`):
+    `(*node).checkPrefix` continues with `return idx` in both cases, so its proof does not depend on which of the two
+    forms the source uses -/
+def flat : Except Int Int → Int
+  | .ok v => v
+  | .error v => v
+
 theorem checkPrefix_loop (plen : Int) (pfx key : Bytes) (d : Nat) :
     ∀ (fuel n i : Nat), n < fuel → i + n ≤ pfx.length → d + i + n ≤ key.length →
-      checkPrefix.loop0 plen pfx key (d : Int) ((i + n : Nat) : Int) fuel (i : Int) =
-        some (outcome i n (lcpFrom pfx key i (d + i) n)) := by
+      (checkPrefix.loop0 plen pfx key (d : Int) ((i + n : Nat) : Int) fuel (i : Int)).map flat =
+        some (((i + lcpFrom pfx key i (d + i) n : Nat)) : Int) := by
   intro fuel
   induction fuel with
   | zero => intro n i h; omega
   | succ fuel ih =>
     intro n i hf hp hk
     cases n with
-    | zero => simp [checkPrefix.loop0, lcpFrom_zero, outcome]
+    | zero => simp [checkPrefix.loop0, lcpFrom_zero, flat]
     | succ n =>
       have hi1 : i < pfx.length := by omega
       have hi2 : d + i < key.length := by omega
@@ -163,14 +170,8 @@ theorem checkPrefix_loop (plen : Int) (pfx key : Bytes) (d : Nat) :
         have := ih n (i + 1) (by omega) (by omega) (by omega)
         rw [show i + (n + 1) = i + 1 + n by omega, show d + (i + 1) = d + i + 1 by omega] at *
         rw [this]
-        simp only [outcome]
-        congr 1
-        by_cases hl : lcpFrom pfx key (i + 1) (d + i + 1) n < n
-        · have : lcpFrom pfx key (i + 1) (d + i + 1) n + 1 < n + 1 := by omega
-          simp only [hl, this, if_true]; congr 2; omega
-        · have : ¬ lcpFrom pfx key (i + 1) (d + i + 1) n + 1 < n + 1 := by omega
-          simp only [hl, this, if_false]; congr 2; omega
-      · simp [he, outcome]
+        congr 2; omega
+      · simp [he, flat]
 
 /-- the first `min(prefixLen,10)` bytes of the prefix array -/
 def inl (plen : Nat) (pfx : Bytes) : Bytes := pfx.take (min plen 10)
@@ -187,7 +188,6 @@ theorem checkPrefix_eq (plen : Nat) (pfx key : Bytes) (d : Nat) (hp : pfx.length
     have := checkPrefix_loop (plen : Int) pfx key d (n + 1) n 0 (by omega) (by omega) (by omega)
     simp only [Int.sub_zero, Int.toNat_natCast, Nat.zero_add] at this ⊢
     rw [show ((0 : Nat) : Int) = 0 from rfl] at this
-    rw [this]
     have hl : lcpFrom pfx key 0 (d + 0) n = lcpLen (inl plen pfx) (key.drop d) := by
       unfold lcpFrom inl
       simp only [List.drop_zero, Nat.add_zero]
@@ -199,13 +199,12 @@ theorem checkPrefix_eq (plen : Nat) (pfx key : Bytes) (d : Nat) (hp : pfx.length
         rw [← lcpLen_take (pfx.take (min plen 10)) (key.drop d) n (by simp; omega)]
         congr 1
         simp [List.take_take]; omega
-    have hle := lcpFrom_le pfx key 0 (d + 0) n
-    rw [hl] at hle
-    simp only [outcome, Nat.zero_add, hl]
-    by_cases hlt : lcpLen (inl plen pfx) (key.drop d) < n
-    · simp only [hlt, if_true]
-    · have he : lcpLen (inl plen pfx) (key.drop d) = n := by omega
-      simp only [he, Nat.lt_irrefl, if_false]
+    rw [hl] at this
+    rcases hx : checkPrefix.loop0 (plen : Int) pfx key (d : Int) (n : Int) (n + 1) 0 with _ | a
+    · rw [hx] at this; simp at this
+    · rw [hx] at this
+      simp only [Option.map_some, Option.some.injEq] at this
+      cases a <;> simp only [flat] at this <;> simp only [this]
   · have hnlt : ¬ ((0 : Int) < min (min (plen : Int) 10) ((key.length : Int) - (d : Int))) := by omega
     obtain ⟨f, hf⟩ : ∃ f, ((min (min (plen : Int) 10) ((key.length : Int) - (d : Int))) - 0).toNat + 1 = f + 1 := ⟨_, rfl⟩
     rw [hf]
